@@ -92,7 +92,9 @@ func Load(deps bool, overlay map[string][]byte) (*Program, error) {
 // whole-program call graphs; with deps=false only module packages have bodies.
 func (p *Program) SSA() (*ssa.Program, []*ssa.Package) {
 	if p.ssaProg == nil {
-		prog, pkgs := ssautil.AllPackages(p.All, ssa.InstantiateGenerics)
+		// BuildSerially: a builder panic then surfaces in the calling goroutine, where the driver
+		// turns it into a fail-closed verdict instead of a crashed process
+		prog, pkgs := ssautil.AllPackages(p.All, ssa.InstantiateGenerics|ssa.BuildSerially)
 		prog.Build()
 		p.ssaProg, p.ssaPkgs = prog, pkgs
 	}
